@@ -480,5 +480,50 @@ theorem finished_pending_nil (st : State) (hf : st.finished = true) : (st.worker
   cases hpc : wk.pc <;> simp [isIdle, hpc] at this
   simp [pendingOf, hpc, this]
 
+/-! ### creating the file -/
+
+/-- the file only grows: `f'` holds everything `f` holds, in place -/
+def Extends (f f' : Option (List (List Char))) : Prop :=
+  ∀ ps, f = some ps → ∃ extra, f' = some (ps ++ extra)
+
+theorem extends_refl (f : Option (List (List Char))) : Extends f f := fun ps h => ⟨[], by simp [h]⟩
+
+theorem extends_trans {a b c : Option (List (List Char))} (h1 : Extends a b) (h2 : Extends b c) : Extends a c := by
+  intro ps h
+  obtain ⟨e1, h1'⟩ := h1 ps h
+  obtain ⟨e2, h2'⟩ := h2 _ h1'
+  exact ⟨e1 ++ e2, by rw [h2', List.append_assoc]⟩
+
+theorem openStep_new_extends (header : List Char) (st : OpenState) (i : Nat) :
+    Extends st.file (openStep false header st i).file := by
+  cases ho : st.openers[i]? with
+  | none => simp only [openStep, ho]; exact extends_refl _
+  | some o =>
+    cases hpc : o.pc with
+    | start =>
+      cases hf : st.file with
+      | none => intro ps h; cases h
+      | some f => simp only [openStep, ho, hpc, hf, Bool.false_eq_true, if_false]; exact extends_refl _
+    | sawMissing => simp only [openStep, ho, hpc, Bool.false_eq_true, if_false]; exact extends_refl _
+    | created =>
+      simp only [openStep, ho, hpc]
+      intro ps h
+      exact ⟨[header], by simp [h]⟩
+    | opened =>
+      cases hr : o.records with
+      | nil => simp only [openStep, ho, hpc, hr]; exact extends_refl _
+      | cons r rest =>
+        simp only [openStep, ho, hpc, hr]
+        intro ps h
+        exact ⟨[r], by simp [h]⟩
+
+/-- the repaired code never truncates: whatever sinks open the path and append in whatever interleaving, every
+piece that was in the file stays there, in place -/
+theorem openExec_new_extends (header : List Char) (schedule : List Nat) (st : OpenState) :
+    Extends st.file (openExec false header st schedule).file := by
+  induction schedule generalizing st with
+  | nil => exact extends_refl _
+  | cons i is ih => exact extends_trans (openStep_new_extends header st i) (ih _)
+
 end SinkFine
 end Compass
